@@ -405,7 +405,9 @@ func ConvertToJSON(val lua.LValue) string {
 		tbl.ForEach(cb)
 		return start + strings.Join(values, `,`) + end
 	}
-	return "Unsupported lua type: " + val.Type().String()
+	// (inside a table; a script that returns such a value itself is answered
+	// with an error)
+	return jsonString("Unsupported lua type: " + val.Type().String())
 }
 
 // luaEvalCmdRegistryKey is the registry slot holding the command word (eval,
@@ -556,6 +558,12 @@ func (s *Server) cmdEvalUnified(scriptIsSha bool, msg *Message) (res resp.Value,
 
 	switch msg.OutputType {
 	case JSON:
+		switch ret.Type() {
+		case lua.LTFunction, lua.LTUserData, lua.LTThread, lua.LTChannel:
+			// an error in RESP mode too
+			return NOMessage, errors.New(
+				"Unsupported lua type: " + ret.Type().String())
+		}
 		var buf bytes.Buffer
 		buf.WriteString(`{"ok":true`)
 		buf.WriteString(`,"result":` + ConvertToJSON(ret))
